@@ -327,7 +327,7 @@ class C04(Prop):
     named_errors = {"ZeroFill", "Bounds"}       # "report zero-fill", "report out-of-bounds"
     pid = "C04"
     title = "file views resolve RVAs through the section table"
-    thm_modules = ["PeliteModel.Thm.C04", "PeliteModel.Thm.C04View"]
+    thm_modules = ["PeliteModel.Thm.C04", "PeliteModel.Thm.C04Dead", "PeliteModel.Thm.C04View"]
     gens = [gen_img.gen_c04, gen_img.gen_c04_firstmatch, gen_img.gen_c04_manysec]
 
     def nontrivial(self, op, impl):
